@@ -14,11 +14,14 @@ pub struct GenCfg {
     pub space_isolated: bool,
     pub max_ids: usize,
     pub allow_user: bool,
+    /// some dictionaries get 19 categories (DEFAULT + 18): one too many for the 18-bit category set,
+    /// the builder must reject them (only recorders that can log a rejected build set this)
+    pub overfull: bool,
 }
 
 impl Default for GenCfg {
     fn default() -> Self {
-        GenCfg { conn_kind: 3, want_space: true, space_isolated: false, max_ids: 4, allow_user: true }
+        GenCfg { conn_kind: 3, want_space: true, space_isolated: false, max_ids: 4, allow_user: true, overfull: false }
     }
 }
 
@@ -145,8 +148,9 @@ pub fn gen_dict(rng: &mut Rng, cfg: &GenCfg) -> ADict {
     // categories: usually a handful; one dictionary in five uses 12-18 of them (the category set
     // is an 18-bit mask and the base id an 8-bit field: high ids must work like low ones)
     let many = rng.chance(1, 5);
+    let overfull = many && cfg.overfull && rng.chance(1, 3);
     let all_names: Vec<String> = if many {
-        (1..18).map(|i| format!("K{i}")).collect()
+        (1..(if overfull { 19 } else { 18 })).map(|i| format!("K{i}")).collect()
     } else {
         vec!["ALPHA".to_string(), "KANJI".to_string(), "SYM".to_string(), "X9".to_string()]
     };
@@ -154,7 +158,7 @@ pub fn gen_dict(rng: &mut Rng, cfg: &GenCfg) -> ADict {
     rng.shuffle(&mut names);
     let with_space = cfg.want_space && rng.chance(4, 5);
     // many: all 18 category ids (0..17) exist
-    let ncat = if many { if with_space { 16 } else { 17 } } else { rng.below(4) };
+    let ncat = if many { (if with_space { 16 } else { 17 }) + overfull as usize } else { rng.below(4) };
     let glen = |rng: &mut Rng| -> u32 { match rng.below(10) { 0 => 15, 1 => 7, 2 => 4, _ => rng.below(4) as u32 } };
     let mut cats = vec![ACat { name: "DEFAULT".into(), invoke: rng.below(2) as u8, group: rng.below(2) as u8, length: glen(rng) }];
     let mut order: Vec<String> = names[..ncat.min(names.len())].to_vec();
